@@ -129,3 +129,16 @@ Theorem C11_the_characters_of_a_written_expression_are_read_back_as_the_expressi
     parse_string (render l) = Some e.
 Proof. exact parse_rendered. Qed.
 Print Assumptions C11_the_characters_of_a_written_expression_are_read_back_as_the_expression.
+
+(* the printer as it is run (Lex.render_expr: printed tokens spelled as characters - integer literals, <m>e-<k> for the
+   other numbers): whenever it writes a text for a writable expression, lexing and parsing that text gives the expression;
+   the harness puts these texts in the place of the right-hand sides of every model and has Lark read them *)
+Theorem C11_the_text_the_printer_writes_is_read_back_as_the_expression :
+  forall e s, writable e -> render_expr e = Some s -> parse_string s = Some e.
+Proof. exact render_expr_parse. Qed.
+Print Assumptions C11_the_text_the_printer_writes_is_read_back_as_the_expression.
+
+Theorem C11_the_text_written_for_a_token_sequence_is_lexed_back_to_it :
+  forall ts s, render_tokens ts = Some s -> lex s = Some ts.
+Proof. exact render_tokens_lex. Qed.
+Print Assumptions C11_the_text_written_for_a_token_sequence_is_lexed_back_to_it.
